@@ -810,7 +810,13 @@ class Analyzer(Analysis):
             return ("const", int(k["v"])) if k["c"] == "int" else ("const", None)
         pl = op["pl"]
         key = self.key_of(st, pl, bi, -3)
-        return ("place", self.origin.get(key, key))
+        okey = self.origin.get(key, key)
+        # a temporary that holds a compile-time constant on this path (`let tag = match self { A => 0, .. }` under a known variant)
+        if not pl["p"] and okey.startswith("_") and okey[1:].isdigit() and int(okey[1:]) > self.b.argc:
+            v = st.store.get(key)
+            if v is not None and v[0] == "lin" and v[1].is_const():
+                return ("const", v[1].c)
+        return ("place", okey)
 
     def describe_bytes(self, st, v):
         """what the byte slice handed to write_all consists of"""
@@ -1298,8 +1304,9 @@ class Analyzer(Analysis):
                     ev["st"] = st.copy()
                     self.events.append(ev)
                 return
-            elif re.search(r"^core::slice::<impl \[T\]>::(iter|iter_mut)$", name) and vals and vals[0] is not None \
-                    and vals[0][0] == "slice":
+            elif re.search(r"^core::slice::<impl \[T\]>::(iter|iter_mut)$|^core::slice::iter::<impl std::iter::IntoIterator for &'a (mut )?\[T\]>::into_iter$",
+                           name) and vals and vals[0] is not None and vals[0][0] == "slice":
+                # `for x in slice` is `for x in slice.iter()`
                 result = ("iter", vals[0][1])
                 handled = True
             elif re.search(r"^<std::vec::Vec<T, A> as std::clone::Clone>::clone$|^std::slice::<impl \[T\]>::to_vec$", name) and vals \
@@ -1833,7 +1840,15 @@ class Analyzer(Analysis):
             if all(v is not None and v[0] == "adt" for v in vs) and len(set((v[1], v[2]) for v in vs)) == 1:
                 # the same variant of the same enum on every edge (e.g. different Err(..) values): the variant is known
                 if len(set(len(v[3]) for v in vs)) == 1:
-                    flds = tuple(vs[0][3][i] if all(v[3][i] == vs[0][3][i] for v in vs) else None for i in range(len(vs[0][3])))
+                    def jv(xs):
+                        # field-wise, through nested aggregates of the same shape (`Ok(Record { a, b })` built on two paths that
+                        # differ in b keeps a)
+                        if all(x == xs[0] for x in xs[1:]):
+                            return xs[0]
+                        if all(x is not None and x[0] == "adt" for x in xs) and len(set((x[1], x[2], len(x[3])) for x in xs)) == 1:
+                            return ("adt", xs[0][1], xs[0][2], tuple(jv([x[3][i] for x in xs]) for i in range(len(xs[0][3]))), xs[0][4])
+                        return None
+                    flds = tuple(jv([v[3][i] for v in vs]) for i in range(len(vs[0][3])))
                     store[k] = ("adt", vs[0][1], vs[0][2], flds, vs[0][4])
                 else:
                     store[k] = ("adt", vs[0][1], vs[0][2], (), ())
